@@ -106,3 +106,53 @@ pub fn epoch_gap() {
     }
     println!("recovery: {:?}", recover_filesystem_store(&dir, RecoveryAccessMode::ReadOnly).map(|r| r.transactions.len()).map_err(|e| format!("{e:?}")));
 }
+
+/// Exploratory probe (not part of the check): a crash tears the second transaction of segment 1 at
+/// every byte; a NEW WRITER then opens segment 2 and fences an epoch WITHOUT a truncating recovery
+/// in between, appends one transaction where the store tells it to, and the directory is recovered.
+/// Prints, per position class of the tear, what recovery returns.
+pub fn new_writer_without_truncation() {
+    use crate::store_layer::pos_class;
+    use std::collections::BTreeMap;
+    use walkit::mseg::{build_multi, MDirImage, MSpec};
+    use walkit::store::{build_tx_on, Chain, TxKind};
+    use warp_core::causal_wal::{recover_filesystem_store, FilesystemWalStore, Lsn, RecoveryAccessMode, WalSegmentId};
+    let scratch = mc::scratch_root();
+    let log = build_multi(&fresh_dir(&scratch, "probe-nw-build"), &MSpec::parse("SS").expect("spec"), 0).expect("build");
+    let dir = fresh_dir(&scratch, "probe-nw").join("wal");
+    let tx0_end = log.records[0].iter().filter(|r| r.is_commit()).map(|r| r.end).next().expect("commit");
+    // ledger version current right after transaction 0 was acknowledged
+    let ledger = log.events.iter().filter_map(|e| if let walkit::mseg::Ev::Ledger { v } = e { Some(*v) } else { None }).nth(1).expect("ledger");
+    let mut hist: BTreeMap<String, u64> = BTreeMap::new();
+    for l in tx0_end..log.segments[0].len() {
+        let mut img = MDirImage::default();
+        img.segs.insert(1, log.segments[0][..l].to_vec());
+        img.ledger = Some(log.ledgers[ledger].clone());
+        img.materialise_over(&dir);
+        let cls = if l == tx0_end { "clean(no tear)" } else { pos_class(&log.records[0], l) };
+        let res = mc::catch(|| -> Result<String, String> {
+            let mut s = FilesystemWalStore::open(&dir, WalSegmentId::from_raw(2)).map_err(|e| format!("open:{e:?}"))?;
+            let e = s.acquire_fresh_writer_epoch(Lsn::from_raw(0)).map_err(|e| format!("acquire:{e:?}"))?;
+            let mut chain = Chain::genesis().after(&log.txs[0]);
+            let handed = e.started_at_lsn.as_u64();
+            let expected = chain.next_lsn.as_u64();
+            chain.next_lsn = e.started_at_lsn;
+            let tx = build_tx_on(TxKind::Submit, e.epoch_id, &chain, "probe:nw", WalSegmentId::from_raw(2))?;
+            s.append_transaction(tx.clone()).map_err(|e| format!("append:{e:?}"))?;
+            drop(s);
+            let rep = recover_filesystem_store(&dir, RecoveryAccessMode::ReadOnly).map_err(|e| format!("recover:{e:?}"))?;
+            let ok = rep.transactions.len() == 2 && rep.transactions[0].commit == log.txs[0].commit && rep.transactions[1].commit == tx.commit;
+            Ok(format!("recovered {} tx ({}), tail {:?}, epoch start {}", rep.transactions.len(), if ok { "tx0 + new" } else { "OTHER" },
+                std::mem::discriminant(&rep.tail_posture) == std::mem::discriminant(&warp_core::causal_wal::RecoveryTailPosture::Clean), handed as i64 - expected as i64))
+        });
+        let out = match res {
+            Ok(Ok(s)) => s,
+            Ok(Err(e)) => format!("ERR {}", e.split('(').take(3).collect::<Vec<_>>().join("(")),
+            Err(p) => format!("PANIC {p}"),
+        };
+        *hist.entry(format!("{cls:<22} -> {out}")).or_insert(0) += 1;
+    }
+    for (k, v) in hist {
+        println!("{v:5}  {k}");
+    }
+}
